@@ -441,9 +441,24 @@ def checkC09 (cs : CaseQ) (d : DatasetQ) : List String :=
   let f4 := if d.angtol == cs.angtol then [] else ["C09: returned angle tolerance differs from the requested one"]
   f1 ++ f2 ++ f3 ++ f4
 
-/-- Summary used to compare a noisy run with its undistorted twin. -/
+/-- Tabulated multiplicity of Wyckoff letter `l` of Hall number `h` (0 if absent). -/
+def wyckoffMultiplicity (h : Nat) (l : String) : Nat :=
+  match wyckoffTableList.find? (fun e => e.hallNumber == h && l == String.singleton e.letter) with
+  | some e => e.multiplicity
+  | none => 0
+
+/-- Orientation-free form of a site-symmetry symbol: its characters without dots, sorted. -/
+def siteSymKey (s : String) : String :=
+  String.ofList ((s.toList.filter (· != '.')).mergeSort (fun a b => a ≤ b))
+
+/-- Summary used to compare a run with a twin (noisy / scaled / re-described):
+`number hall nops | ntranslations pearson | orbit labels | Wyckoff multiplicities | site-symmetry keys`. -/
 def summary (d : DatasetQ) : String :=
-  s!"{d.number} {d.hallNumber} {d.ops.size} {d.orbits.toList}"
+  let ntrans := (d.ops.toList.filter fun o => o.rot == M3.one).length
+  let h := d.hallNumber.toNat
+  let mults := d.wyck.toList.map (wyckoffMultiplicity h)
+  let keys := d.siteSym.toList.map siteSymKey
+  s!"{d.number} {d.hallNumber} {d.ops.size} ; {ntrans} {d.pearson} ; {d.orbits.toList} ; {mults} ; {keys}"
 
 /-- ITA number of a Hall number (none when out of range). -/
 def numberOfHall (h : Int) : Option Nat :=
